@@ -94,6 +94,9 @@ func calendarOf(t string) string {
 	return ""
 }
 
+// CalendarOrRange reports whether the rule type routes by ranges (range, date_*).
+func CalendarOrRange(t string) bool { return t == models.ShardRange || calendarOf(t) != "" }
+
 // Supported reports whether Gaea's configuration check admits the layout at all.
 func (l Layout) Supported() bool {
 	if l.Rule == models.ShardMycatPaddingMod && l.Slices*l.Per < 2 {
